@@ -539,7 +539,7 @@ class Subscription(BaseSubscription):
                 await queue.put((sub_id, event))
         await queue.put((sub_id, None))
 
-    def evaluate_filter(self, filter_obj, subwhere):
+    def evaluate_filter(self, filter_obj, subwhere, params):
         if filter_obj.ids is not None:
             if filter_obj.ids:
                 exact = []
@@ -593,17 +593,22 @@ class Subscription(BaseSubscription):
         if filter_obj.until is not None:
             subwhere.append("created_at < %d" % filter_obj.until)
         if filter_obj.tags:
+            if any(not tags for tagname, tags in filter_obj.tags):
+                # an empty list of values cannot match anything
+                raise ValueError("tags")
             for tagname, tags in filter_obj.tags:
-                pstr = []
+                # tag names and values come from the client: always bind them
+                name_param = f"tag{len(params)}"
+                params[name_param] = tagname
+                value_params = []
                 for val in tags:
-                    if val:
-                        val = val.replace("'", "''")
-                        pstr.append(f"'{val}'")
-                if pstr:
-                    pstr = ",".join(pstr)
-                    subwhere.append(
-                        f"id IN (SELECT id FROM tags WHERE name = '{tagname}' AND value IN ({pstr})) "
-                    )
+                    value_param = f"tag{len(params)}"
+                    params[value_param] = val
+                    value_params.append(f":{value_param}")
+                pstr = ",".join(value_params)
+                subwhere.append(
+                    f"id IN (SELECT id FROM tags WHERE name = :{name_param} AND value IN ({pstr})) "
+                )
         return filter_obj
 
     def build_query(self, filters):
@@ -611,12 +616,13 @@ class Subscription(BaseSubscription):
             SELECT id, created_at, kind, pubkey, tags, sig, content FROM events
         """
         where = set()
+        params = {}
         limit = None
         new_filters = []
         for filter_obj in filters:
             subwhere = []
             try:
-                filter_obj = self.evaluate_filter(filter_obj, subwhere)
+                filter_obj = self.evaluate_filter(filter_obj, subwhere, params)
             except ValueError:
                 self.log.debug("bad query %s", filter_obj)
                 filter_obj = NostrQuery()
@@ -639,7 +645,10 @@ class Subscription(BaseSubscription):
             ORDER BY created_at DESC
             LIMIT {limit}
         """
-        return sa.text(select), new_filters
+        query = sa.text(select)
+        if params:
+            query = query.bindparams(**params)
+        return query, new_filters
 
 
 class QueryGarbageCollector(BaseGarbageCollector):
